@@ -143,7 +143,7 @@ func c16(w *core.World, r *core.Report) {
 		if !inTypes(f) {
 			continue
 		}
-		for _, c := range core.Calls(f) {
+		for _, c := range core.OwnCalls(f) {
 			bi, ok := c.Common().Value.(*ssa.Builtin)
 			if !ok || bi.Name() != "close" {
 				continue
@@ -192,7 +192,7 @@ func c16(w *core.World, r *core.Report) {
 			continue
 		}
 		var lock ssa.CallInstruction
-		for _, c := range core.Calls(f) {
+		for _, c := range core.OwnCalls(f) {
 			if k, cls, _ := core.LockOp(c); k == "lock" && cls == "datastore/types.TransactionManager.tmMutex" {
 				if _, isDefer := c.(*ssa.Defer); !isDefer {
 					lock = c
@@ -203,7 +203,7 @@ func c16(w *core.World, r *core.Report) {
 			continue
 		}
 		var effects []ssa.Instruction
-		for _, c := range core.Calls(f) {
+		for _, c := range core.OwnCalls(f) {
 			if core.CalleeIs(c, kRollbackIface, kTxConfirm, kTxGetRollback) {
 				effects = append(effects, c)
 			}
@@ -262,7 +262,7 @@ func c16(w *core.World, r *core.Report) {
 						tparam = p
 					}
 				}
-				for _, c := range core.CallsTo(f, kRollbackIface) {
+				for _, c := range core.OwnCallsTo(f, kRollbackIface) {
 					ok := tparam != nil && core.GuardedByEq(c, true,
 						func(v ssa.Value) bool { return core.FieldOf(v) == kTMSlot },
 						func(v ssa.Value) bool { return core.HasOrigin(v, tparam) })
